@@ -136,6 +136,10 @@ def run(case):
         cfgs.append(cfg("allow_empty", {"k": k0 + 1, "optimization_options": {ae: True}}, allow_empty=True))
     for fname, fl in sweep.flag_sets(base_cls, case["level"])[1:]:
         cfgs.append(cfg(f"flags:{fname}", {"optimization_options": dict(fl)}))
+    # solver answers within tolerance: every value read from the solver shifted by -/+ 5e-10 (0.9999999995 is still 'on the route')
+    if not cls.startswith("NumPaths:"):
+        cfgs.append(cfg("noise-"))
+        cfgs.append(cfg("noise+"))
 
     if case.get("float_data"):
         import flowpaths.utils.graphutils as gu
@@ -150,7 +154,14 @@ def run(case):
             kw["weight_type"] = "float" if case.get("float_data") else "int"
         kw.update(c["kw"])
         use = c["inst"] or inst
-        obs = _solve(use, cls, kw)
+        if c["name"].startswith("noise"):
+            from .. import faults
+            if base_cls in ("kFlowDecomp", "MinFlowDecomp"):
+                kw["optimization_options"] = {"optimize_with_greedy": False}
+            with faults.ValueNoise(-5e-10 if c["name"].endswith("-") else 5e-10):
+                obs = _solve(use, cls, kw)
+        else:
+            obs = _solve(use, cls, kw)
         tags[f"cfg:{c['name'].split(':')[0]}"] += 1
         ctx = f"{cls}({c['name']}: {kw})"
         if obs["exc"]:
